@@ -116,6 +116,26 @@ def stepSt (st : St) (ws : List String) : St × String :=
         ({ st with progs := st.progs ++ [(tid, parsed.filterMap id)] }, "ok")
       else (st, "bad-op")
     | none => (st, "bad-op")
+  | ["incmany", k, n] =>
+    -- n raw references are taken at once (refInc n times): the model's counter is a natural number
+    match k.toNat?, n.toNat? with
+    | some k, some n =>
+      (match st.s.objs[k]? with
+       | some ob => let s' := setObj st.s k { ob with count := ob.count + n, manual := ob.manual + n }
+                    ({ st with s := s' }, showState s')
+       | none => (st, "bad-op"))
+    | _, _ => (st, "bad-op")
+  | ["decmany", k, n] =>
+    -- n raw references are given back; the generator keeps at least one other reference, so nothing is destroyed
+    match k.toNat?, n.toNat? with
+    | some k, some n =>
+      (match st.s.objs[k]? with
+       | some ob => if ob.count > n ∧ ob.manual ≥ n then
+                      let s' := setObj st.s k { ob with count := ob.count - n, manual := ob.manual - n }
+                      ({ st with s := s' }, showState s')
+                    else (st, "bad-op")
+       | none => (st, "bad-op"))
+    | _, _ => (st, "bad-op")
   | ["watchall", _] =>
     -- destructors of dying objects copy-and-drop every live handle variable: no count changes (no live handle
     -- designates an object that is being destroyed - not_destroyed_while_referenced)
